@@ -128,6 +128,8 @@ def run_shard(spec):
             elif "if_not_contains(abc)" in kind and rnd.random() < 0.6:
                 g._numeric_prefix = False
                 q = g.action(0, 0, True) + "/attr_low/" + g.query(0, first=False, max_len=3)
+            elif rnd.random() < 0.12:
+                q = rnd.choice(["res.txt", "dir/n.json", "-R/dir/sub/b.bin"]) + "/-/" + g.query(0, first=False, max_len=3)
             else:
                 q = g.query(0)
             if rnd.random() < 0.15:
